@@ -638,6 +638,16 @@ MUTANTS = [
     M("O8-3-weight-any-fraction-of-one", ["C10"], (TK, "Regex::new(&format!(r\"^{}(:(0(\\.[0-9]+)?|1(\\.0+)?))?$\", notation)).unwrap()", "Regex::new(&format!(r\"^{}(:(0(\\.[0-9]+)?|1(\\.[0-9]+)?))?$\", notation)).unwrap()"), base="O8-3"),
     M("O8-3-unanchored", ["C09", "C05"], (TK, "Regex::new(&format!(r\"^{}(:(0(\\.[0-9]+)?|1(\\.0+)?))?$\", notation)).unwrap()", "Regex::new(&format!(r\"{}(:(0(\\.[0-9]+)?|1(\\.0+)?))?$\", notation)).unwrap()"), base="O8-3"),
     M("O8-3-fields-swapped", ["C05"], (TK, "        single_pocket_pair: token(r\"[AKQJT98765432]{2}\"),\n        single_rank_pair: token(r\"[AKQJT98765432]{2}[so]\"),", "        single_pocket_pair: token(r\"[AKQJT98765432]{2}[so]\"),\n        single_rank_pair: token(r\"[AKQJT98765432]{2}\"),"), base="O8-3"),
+    M("benign-O5-2-listed-rank-pairs", ["C05", "C09", "C10", "C06", "C17"], base="O5-2", benign=True),
+    M("benign-L6-2-listed-rank-pairs", ["C05", "C09"], base="L6-2", benign=True),
+    M("benign-I6-1-helpers-in-closure", ["C05", "C09"], base="I6-1", benign=True),
+    M("O5-2-bottom-not-next", ["C05"], (TK, "rank_pair_run(high.next().unwrap(), kicker, |r| RankPair::Suited(high, r))", "rank_pair_run(high, kicker, |r| RankPair::Suited(high, r))"), base="O5-2"),
+    M("O5-2-ofsuit-builds-suited", ["C05"], (TK, "rank_pair_run(kicker, end, |r| RankPair::Ofsuit(high, r))", "rank_pair_run(kicker, end, |r| RankPair::Suited(high, r))"), base="O5-2"),
+    M("O5-2-helper-exclusive", ["C05"], (TK, "    RankRange::inclusive(top, bottom)\n        .into_iter()\n        .map(to_rank_pair)", "    RankRange::new(top, bottom)\n        .into_iter()\n        .map(to_rank_pair)"), base="O5-2"),
+    M("O5-2-tail-weight-one", ["C05"], (TK, ".flat_map(|rank_pair| rank_pair.into_iter().map(move |cp| (cp, probability)))", ".flat_map(|rank_pair| rank_pair.into_iter().map(move |cp| (cp, 1.0)))"), base="O5-2"),
+    M("O5-2-pocket-from-king", ["C05"], (TK, "RankPair::Pocket(rank) => rank_pair_run(Rank::Ace, rank, RankPair::Pocket),", "RankPair::Pocket(rank) => rank_pair_run(Rank::King, rank, RankPair::Pocket),"), base="O5-2"),
+    M("I6-1-varying-high", ["C05"], (TK, "        RankPair::Suited(high, _) => RankPair::Suited(high, rank),", "        RankPair::Suited(high, _) => RankPair::Suited(rank, high),"), base="I6-1"),
+    M("I6-1-weighted-half", ["C05"], (TK, "    rank_pair.into_iter().map(move |cp| (cp, probability))", "    rank_pair.into_iter().map(move |cp| (cp, probability * 0.5))"), base="I6-1"),
     M("benign-F3-3-computed-flush-weight", ["C01", "C07", "C08"], base="F3-3", benign=True),
     M("F3-3-unreversed", ["C01", "C07"], (MH, "1 << (12 - u8::from(card.rank()))", "1 << u8::from(card.rank())"), base="F3-3"),
     M("F3-3-off-by-one", ["C01", "C07"], (MH, "1 << (12 - u8::from(card.rank()))", "1 << (13 - u8::from(card.rank()))"), base="F3-3"),
